@@ -236,7 +236,9 @@ def rule_magnitude(ctx: Ctx) -> None:
             str_fields.add(name)
     if not STR_QUANTITIES <= str_fields:
         raise AnalysisError(f"expected memory and time to be str-typed fields, got {sorted(str_fields)}")
-    targets = [*ctx.prog.functions_in(MOD), ctx.prog.func("pipefunc._pipefunc._maybe_max_resources")]
+    # everything that orders resources: the module itself, and the nested function's maximum (a helper, or spelled into the constructor)
+    nested = [f for q in ("pipefunc._pipefunc._maybe_max_resources", "pipefunc._pipefunc.NestedPipeFunc.__init__") if (f := ctx.prog.functions.get(q)) is not None]
+    targets = [*ctx.prog.functions_in(MOD), *nested]
     # parameters that a function orders directly (max/min/sorted/<>): passing a raw quantity to them is textual ordering too
     ordering_params: dict[str, set[str]] = {}
     for fn in targets:
@@ -254,6 +256,20 @@ def rule_magnitude(ctx: Ctx) -> None:
                 continue
             n += 1
             raw = [q for q in map(_raw_quantity, resolved) if q]
+            key_kw = next((k.value for k in node.keywords if k.arg == "key"), None) if isinstance(node, ast.Call) else None
+            if raw and key_kw is not None:
+                # max(xs, key=f) orders by f(x): a key that converts to a number orders by magnitude
+                body = key_kw.body if isinstance(key_kw, ast.Lambda) else None
+                convs = [c_ for c_ in ast.walk(body) if isinstance(c_, ast.Call)] if body is not None else [ast.Call(func=key_kw, args=[], keywords=[])]
+                numeric = False
+                for c_ in convs:
+                    for callee in ctx.cg.resolve_callable(fn, c_.func):
+                        r_ = callee.node.returns
+                        if r_ is not None and {"int", "float"} & ctx.typer.ann(callee.module, callee, r_).scalars() and "str" not in ctx.typer.ann(callee.module, callee, r_).scalars():
+                            numeric = True
+                ctx.add("2-magnitude", fn, node, True if numeric else None, f"{what} orders by the numeric key `{norm(key_kw)[:50]}`" if numeric else
+                        f"UNDECIDED: {what} orders `{raw[0]}` through the key `{norm(key_kw)[:50]}`, which is not recognised as a conversion to a number", key=f"{what} {norm(node)[:90]}")
+                continue
             ctx.add("2-magnitude", fn, node, not raw, f"{what} on converted magnitudes" if not raw else
                     f"{what} orders the str-typed quantity `{raw[0]}` as text ('2:00:00' > '10:00:00', '9GB' > '10GB')", key=f"{what} {norm(node)[:90]}")
         for c in [c for c in walk_no_nested(fn.node) if isinstance(c, ast.Call)]:
@@ -605,11 +621,8 @@ def rule_rest(ctx: Ctx) -> None:  # noqa: C901, PLR0915
 
 
 def check(ctx: Ctx) -> None:
-    rule_pure(ctx)
-    rule_magnitude(ctx)
-    rule_covers(ctx)
-    ctx.run(rule_nested_takes_the_maximum)
-    rule_rest(ctx)
+    for rule in (rule_pure, rule_magnitude, rule_covers, rule_nested_takes_the_maximum, rule_rest):
+        ctx.run(rule)
 
 
 F = "pipefunc/resources.py"
